@@ -709,51 +709,48 @@ spiftool_hex_dump(void *buff, register size_t count)
 #define CHAR_CLASS_MATCH(a, b)      ((isalpha(a) && isalpha(b)) \
                                      || (isdigit(a) && isdigit(b)) \
                                      || (!isalnum(a) && !isalnum(b)))
+#define VERSION_WORD_IS(w, l, s)    (((l) == (sizeof(s) - 1)) && !strncasecmp((char *) (w), (s), (l)))
 spif_cmp_t
 spiftool_version_compare(spif_charptr_t v1, spif_charptr_t v2)
 {
-    spif_char_t buff1[128], buff2[128];
-
     D_CONF(("Comparing version strings \"%s\" and \"%s\"\n", NONULL(v1), NONULL(v2)));
     SPIF_COMP_CHECK_NULL(v1, v2);
 
     for (; *v1 && *v2; ) {
         D_CONF((" -> Looking at \"%s\" and \"%s\"\n", v1, v2));
         if (isalpha(*v1) && isalpha(*v2)) {
-            spif_charptr_t p1 = buff1, p2 = buff2;
+            spif_charptr_t p1, p2;
+            size_t len1, len2;
             spif_int8_t ival1 = 6, ival2 = 6;
 
-            /* Compare words.  First, copy each word into buffers. */
-            for (; *v1 && isalpha(*v1); v1++, p1++) *p1 = *v1;
-            for (; *v2 && isalpha(*v2); v2++, p2++) *p2 = *v2;
-            *p1 = *p2 = 0;
-
-            /* Change the buffered strings to lowercase for easier comparison. */
-            spiftool_downcase_str(buff1);
-            spiftool_downcase_str(buff2);
-            D_CONF(("     -> Comparing as words \"%s\" vs. \"%s\"\n", buff1, buff2));
+            /* Compare words, whatever their length, where they stand. */
+            for (p1 = v1; *v1 && isalpha(*v1); v1++);
+            for (p2 = v2; *v2 && isalpha(*v2); v2++);
+            len1 = (size_t) (v1 - p1);
+            len2 = (size_t) (v2 - p2);
+            D_CONF(("     -> Comparing as words of %lu vs. %lu letters\n", (unsigned long) len1, (unsigned long) len2));
 
             /* Some strings require special handling. */
-            if (!strcmp((char *) buff1, "snap")) {
+            if (VERSION_WORD_IS(p1, len1, "snap")) {
                 ival1 = 1;
-            } else if (!strcmp((char *) buff1, "pre")) {
+            } else if (VERSION_WORD_IS(p1, len1, "pre")) {
                 ival1 = 2;
-            } else if (!strcmp((char *) buff1, "alpha")) {
+            } else if (VERSION_WORD_IS(p1, len1, "alpha")) {
                 ival1 = 3;
-            } else if (!strcmp((char *) buff1, "beta")) {
+            } else if (VERSION_WORD_IS(p1, len1, "beta")) {
                 ival1 = 4;
-            } else if (!strcmp((char *) buff1, "rc")) {
+            } else if (VERSION_WORD_IS(p1, len1, "rc")) {
                 ival1 = 5;
             }
-            if (!strcmp((char *) buff2, "snap")) {
+            if (VERSION_WORD_IS(p2, len2, "snap")) {
                 ival2 = 1;
-            } else if (!strcmp((char *) buff2, "pre")) {
+            } else if (VERSION_WORD_IS(p2, len2, "pre")) {
                 ival2 = 2;
-            } else if (!strcmp((char *) buff2, "alpha")) {
+            } else if (VERSION_WORD_IS(p2, len2, "alpha")) {
                 ival2 = 3;
-            } else if (!strcmp((char *) buff2, "beta")) {
+            } else if (VERSION_WORD_IS(p2, len2, "beta")) {
                 ival2 = 4;
-            } else if (!strcmp((char *) buff2, "rc")) {
+            } else if (VERSION_WORD_IS(p2, len2, "rc")) {
                 ival2 = 5;
             }
             if (ival1 != ival2) {
@@ -764,7 +761,11 @@ spiftool_version_compare(spif_charptr_t v1, spif_charptr_t v2)
                 int c;
 
                 /* Two arbitrary strings.  Compare them too. */
-                if ((c = strcmp((char *) buff1, (char *) buff2)) != 0) {
+                c = strncasecmp((char *) p1, (char *) p2, MIN(len1, len2));
+                if (c == 0) {
+                    c = ((len1 < len2) ? (-1) : ((len1 > len2) ? (1) : (0)));
+                }
+                if (c != 0) {
                     D_CONF(("     -> %d\n", (int) SPIF_CMP_FROM_INT(c)));
                     return SPIF_CMP_FROM_INT(c);
                 }
@@ -795,16 +796,24 @@ spiftool_version_compare(spif_charptr_t v1, spif_charptr_t v2)
                 return c;
             }
         } else if (!isalnum(*v1) && !isalnum(*v2)) {
-            spif_charptr_t p1 = buff1, p2 = buff2;
+            spif_charptr_t p1, p2;
+            size_t len1, len2;
+            int diff;
             spif_cmp_t c;
 
             /* Compare non-alphanumeric strings. */
-            for (; *v1 && !isalnum(*v1); v1++, p1++) *p1 = *v1;
-            for (; *v2 && !isalnum(*v2); v2++, p2++) *p2 = *v2;
-            *p1 = *p2 = 0;
+            for (p1 = v1; *v1 && !isalnum(*v1); v1++);
+            for (p2 = v2; *v2 && !isalnum(*v2); v2++);
+            len1 = (size_t) (v1 - p1);
+            len2 = (size_t) (v2 - p2);
 
-            D_CONF(("     -> Comparing as non-alphanumeric strings \"%s\" vs. \"%s\"\n", buff1, buff2));
-            c = SPIF_CMP_FROM_INT(strcasecmp((char *) buff1, (char *) buff2));
+            D_CONF(("     -> Comparing as non-alphanumeric strings of %lu vs. %lu characters\n",
+                    (unsigned long) len1, (unsigned long) len2));
+            diff = strncasecmp((char *) p1, (char *) p2, MIN(len1, len2));
+            if (diff == 0) {
+                diff = ((len1 < len2) ? (-1) : ((len1 > len2) ? (1) : (0)));
+            }
+            c = SPIF_CMP_FROM_INT(diff);
             if (!SPIF_CMP_IS_EQUAL(c)) {
                 D_CONF(("     -> %d\n", (int) c));
                 return c;
